@@ -15,8 +15,8 @@ CLAIMED = {
     technique="Verus contracts on mechanically extracted function bodies + inductive history lemmas",
     design="2/C17"),
  "C01": dict(
-    text="Proof of the leaf operations the reference semantics bottoms out in and of the call/return protocol. Verus (unbounded, extracted every run): 21 Stack/StackFrame primitives against a Seq<Value> view, index_from, Deref; call_function_with_upvars (exact / partial / over-application layouts), the PartialApplication arm of do_call, the return statements of execute_ and ExecuteContext::exit_scope; binop/binop_int/binop_byte/binop_bool (operand order, failure leaves the stack untouched); interpreter arms Pop, Slide, Push, PushInt/Byte/Float, GetOffset, Split, ConstructVariant, ConstructRecord, ConstructArray, MakeClosure, TailCall (run-time effect = static effect; constructed value has exactly the top args values as fields in order); Instruction::adjust against the documented stack-effect table, ProgramCounter index safety, the && and || blocks of compile_primitive (short-circuit layout), FunctionEnv::new_stack_var / push_stack_var (which slot a new local denotes), the fix-up of a recursive value in compile_ (placeholder becomes NewRecord/NewVariant with the constructor's layout, the constructor becomes CloseData on the slot of the i-th binding of the group); core::Binder::into_expr (bindings of a record update / constructor application become nested lets in binding order) and the base case of the match compilation (the first matching equation wins). Kani (full domain): the 18 arithmetic/comparison interpreter arms (expression text parsed from execute_ every run) against Z / IEEE and the operator-name -> opcode table. Partial: translation to core and compile_ are not under contract.",
-    note="Trusted: env.rs stand-ins and rewrite rules listed in evidence; MultiplyInt/DivideInt references are core's checked_mul and the language's `/`; for arms/blocks/tails the wrapper signature is mine (free variables become parameters). Translator and PatternTranslator (other than Binder::into_expr and the no-variables base case), Compiler::compile_ (other than the two blocks of compile_primitive and the rec-value fix-up), the remaining interpreter arms, rename, implicits are unverified.",
+    text="Proof of the leaf operations the reference semantics bottoms out in and of the call/return protocol. Verus (unbounded, extracted every run): 21 Stack/StackFrame primitives against a Seq<Value> view, index_from, Deref; call_function_with_upvars (exact / partial / over-application layouts), the PartialApplication arm of do_call, the return statements of execute_ and ExecuteContext::exit_scope; binop/binop_int/binop_byte/binop_bool (operand order, failure leaves the stack untouched); interpreter arms Pop, Slide, Push, PushInt/Byte/Float, GetOffset, Split, ConstructVariant, ConstructRecord, ConstructArray, MakeClosure, TailCall (run-time effect = static effect; constructed value has exactly the top args values as fields in order); Instruction::adjust against the documented stack-effect table, ProgramCounter index safety, the && and || blocks of compile_primitive (short-circuit layout), FunctionEnv::new_stack_var / push_stack_var (which slot a new local denotes), the fix-up of a recursive value in compile_ (placeholder becomes NewRecord/NewVariant with the constructor's layout, the constructor becomes CloseData on the slot of the i-th binding of the group); core::Binder::into_expr (bindings of a record update / constructor application become nested lets in binding order) the base case of the match compilation (the first matching equation wins), the completeness test of compile_constructor (no fall-through alternative only if every constructor of the closed variant has its group) and the test whether the base of a record update may be used in place (only an identifier). Kani (full domain): the 18 arithmetic/comparison interpreter arms (expression text parsed from execute_ every run) against Z / IEEE and the operator-name -> opcode table. Partial: translation to core and compile_ are not under contract.",
+    note="Trusted: env.rs stand-ins and rewrite rules listed in evidence; MultiplyInt/DivideInt references are core's checked_mul and the language's `/`; for arms/blocks/tails the wrapper signature is mine (free variables become parameters). Translator and PatternTranslator (other than Binder::into_expr, the no-variables base case, the completeness test and the record-base test), Compiler::compile_ (other than the two blocks of compile_primitive and the rec-value fix-up), the remaining interpreter arms, rename, implicits are unverified.",
     technique="Verus contracts on extracted bodies + generated Kani harnesses over the interpreter arm table",
     design="2/C01"),
  "C06": dict(
